@@ -87,7 +87,7 @@ PROPS = {
         # C06 = the safety obligations (overflow, bounds, slice ranges, unwrap, preconditions of callees such as the
         # allocation budget) of EVERY unit under contract, for all argument values
         'verus': [{'group': g, 'kinds': ['safety', 'requires-at-call', 'decreases', 'invariant']} for g in
-                  ['shard_core', 'shard_strings', 'shard_lists', 'shard_sweeper', 'shard_sets', 'shard_hashes', 'shard_zsets', 'cmd_strings', 'cmd_lists', 'cmd_sets', 'cmd_hashes', 'c03_lists_arith', 'c04_zset_arith', 'c19_scan', 'c20_parser', 'c09_rdb', 'c13_blocking', 'c07_transactions']],
+                  ['shard_core', 'shard_strings', 'shard_lists', 'shard_sweeper', 'shard_sets', 'shard_hashes', 'shard_zsets', 'cmd_strings', 'cmd_lists', 'cmd_sets', 'cmd_hashes', 'c03_lists_arith', 'c04_zset_arith', 'c19_scan', 'c20_parser', 'c20_serializer', 'c10_bgsave', 'c11_aof', 'c09_rdb', 'c13_blocking', 'c07_transactions']],
         'kani': STREAM_KANI[:1] + RDB_TOTAL_KANI,
         'explanation': 'function by function: every unit under contract is proved free of index/slice errors, arithmetic overflow, failing unwraps and unbounded reservations for ALL argument values; the claim is "no panic in these functions", not "no panic in the server"',
     },
@@ -145,7 +145,7 @@ PROPS = {
     },
     'C20': {
         'level': 'proof',
-        'verus': [{'group': 'c20_parser'}],
+        'verus': [{'group': 'c20_parser'}, {'group': 'c20_serializer'}],
         'explanation': 'request-grammar parser functions proved against the RESP oracle (spec/resp.rs) incl. chunking lemmas over the oracle; aggregate parsers proved safe, progressing and allocation-bounded',
     },
 }
